@@ -379,7 +379,7 @@ def m_deref(ex, st, callee, args):
 
 
 # ------------------------------------------------------------------ f64 methods
-_f64_re = re.compile(r"^(?:std|core)::f64::<impl f64>::(abs|sqrt|floor|ceil|trunc|round|fract|is_nan|is_infinite|is_finite|to_bits|from_bits|powi|powf|is_sign_negative|copysign)$")
+_f64_re = re.compile(r"^(?:(?:std|core)::)?f64::<impl f64>::(abs|sqrt|floor|ceil|trunc|round|fract|is_nan|is_infinite|is_finite|to_bits|from_bits|powi|powf|is_sign_negative|copysign)$")
 
 
 def f64_round_half_away(x):
@@ -535,6 +535,78 @@ def _strlit(ex, st, v):
     return None
 
 
+def m_vec_with_capacity(ex, st, callee, args):
+    return [(None, Adt("Vec", None, ()))]
+
+
+def m_vec_append(ex, st, callee, args):
+    """Vec::append(&mut self, other: &mut Vec): moves all elements of other to the end of self, leaving other empty"""
+    r1, v1 = _vec_at(ex, st, args[0])
+    r2, v2 = _vec_at(ex, st, args[1])
+    ex.write(st, r1.cell, r1.path, Adt(v1.ty, None, v1.fields + v2.fields))
+    ex.write(st, r2.cell, r2.path, Adt(v2.ty, None, ()))
+    return [(None, UNIT)]
+
+
+def m_iter_mut(ex, st, callee, args):
+    """[T]::iter / iter_mut: an iterator = (reference to the sequence, next index)"""
+    ref, v = _vec_at(ex, st, args[0])
+    return [(None, Adt("SliceIter", None, [ref, bv("usize", 0)]))]
+
+
+def m_iter_next(ex, st, callee, args):
+    r = args[0]
+    it = ex.read(st, r.cell, r.path)
+    if not (isinstance(it, Adt) and it.ty == "SliceIter"):
+        raise Inconclusive("Iterator::next on %r" % (it,))
+    seq_ref, idx = it.fields
+    i = z3.simplify(idx.e).as_long()
+    ref, v = _vec_at(ex, st, seq_ref)
+    if i >= len(v.fields):
+        return [(None, NONE)]
+    ex.write(st, r.cell, r.path, Adt("SliceIter", None, [seq_ref, bv("usize", i + 1)]))
+    return [(None, some(Ref(ref.cell, ref.path + (i,))))]
+
+
+def pow_stepwise(ty, x, n):
+    """x**n on machine type ty as n multiplications, each checked in double width: (wrapped result, overflowed).
+    Exact: for |x| >= 2 magnitudes grow monotonically, so an intermediate overflow implies overflow of the final power;
+    for x in {-1, 0, 1} no step overflows."""
+    bits, signed = INT_TYPES[ty]
+    acc = z3.BitVecVal(1, bits)
+    ovf = z3.BoolVal(False)
+    for _ in range(n):
+        acc, o = overflowing("Mul", ty, acc, x)
+        ovf = z3.Or(ovf, o)
+    return acc, ovf
+
+
+_pow_re = re.compile(r"^core::num::<impl (%s)>::(pow|checked_pow|wrapping_pow)$" % INT)
+POW_MAX_EXP = 8
+
+
+def m_int_pow(ex, st, callee, args):
+    """self.pow(exp: u32): exact power; `pow` is #[rustc_inherit_overflow_checks] (panics on overflow with checks on, wraps
+    without).  The exponent must be concrete and <= POW_MAX_EXP (stated bound of the claim)."""
+    m = _pow_re.match(callee)
+    ty, fn = m.group(1), m.group(2)
+    bits, signed = INT_TYPES[ty]
+    a = scalar(ex, st, args[0])
+    e = z3.simplify(scalar(ex, st, args[1]).e)
+    if not z3.is_bv_value(e):
+        raise Inconclusive("pow with a symbolic exponent (the check instantiates exponents 0..%d)" % POW_MAX_EXP)
+    n = e.as_long()
+    if n > POW_MAX_EXP:
+        raise Inconclusive("pow exponent %d beyond the stated bound" % n)
+    res, ovf = pow_stepwise(ty, a.e, n)
+    val = Sc(ty, res)
+    if fn == "checked_pow":
+        return [(z3.Not(ovf), some(val)), (ovf, NONE)]
+    if fn == "wrapping_pow" or not ex.oc:
+        return [(None, val)]
+    return [(z3.Not(ovf), val), (ovf, Panic("attempt to multiply with overflow"))]
+
+
 def m_str_view(ex, st, callee, args):
     """String::as_str / Deref on a *concrete* string keeps the literal; abstract strings stay abstract"""
     lit = _strlit(ex, st, args[0])
@@ -632,6 +704,12 @@ def base_models():
     m.add(r"^Vec::<.*>::pop$", m_vec_pop)
     m.add(r"^Vec::<.*>::push$", m_vec_push)
     m.add(r"^Vec::<.*>::clear$", m_vec_clear)
+    m.add(r"^Vec::<.*>::with_capacity$|^Vec::<.*>::new$", m_vec_with_capacity)
+    m.add(r"^Vec::<.*>::append$", m_vec_append)
+    m.add(r"^core::slice::<impl \[.*\]>::iter(_mut)?$", m_iter_mut)
+    m.add(r"^<std::slice::Iter(Mut)?<.*> as IntoIterator>::into_iter$", m_identity)
+    m.add(r"^<std::slice::Iter(Mut)?<.*> as Iterator>::next$", m_iter_next)
+    m.add(_pow_re.pattern, m_int_pow)
     m.add(r"^Vec::<.*>::len$|^core::slice::<impl \[.*\]>::len$", m_vec_len)
     m.add(r"^Vec::<.*>::is_empty$|^core::slice::<impl \[.*\]>::is_empty$", m_vec_is_empty)
     m.add(r"^<Vec<.*> as (Deref|DerefMut)>::deref(_mut)?$|^Vec::<.*>::as_(mut_)?slice$", m_slice_ref)
